@@ -50,7 +50,7 @@ Qed.
 
 (* ---- the known finding: two 1 Hz clocks; p0 waits for clock B in phase BEFORE (suspends first, id 0),
         p1 waits for clock A in phase BEFORE (id 1); at t = 1 both clocks rise and p1 is resumed first ---- *)
-Definition cfg_two_1hz : config := mk_config true 1 1 [].
+Definition cfg_two_1hz : config := mk_config true (1, 1)%positive (1, 1)%positive [].
 Definition procs_cross : list script :=
   [ [SWaitClk CB BEFORE; SWrite PA 1]; [SWaitClk CA BEFORE; SWrite PA 2] ].
 
@@ -70,11 +70,11 @@ Lemma cross_clock_before_depends_on_tie :
 Proof. vm_compute. repeat split; reflexivity. Qed.
 
 (* ---- a non-trivial single-clock run used as "Example" for the universal theorems ---- *)
-Definition cfg_one : config := mk_config false (3 # 2) 1 [[SRead SRA; SWaitClk CA AFTER; SRead SRA]].
+Definition cfg_one : config := mk_config false (3, 2)%positive (1, 1)%positive [[SRead SRA; SWaitClk CA AFTER; SRead SRA]].
 Definition procs_demo : list script :=
   [ [SWrite PA 5; SWaitClk CA BEFORE; SRead SRA; SWrite PA 6; SWaitClk CA DURING; SRead SRA; SWrite PA 7;
-     SWaitClk CA AFTER; SRead SRA; SWaitFor (1 # 2); SWaitStable; SRead SC];
-    [SFork 0; SWaitClk CA AFTER; SWaitFor 0; SWaitChange [SC]; SRead SC; SJoin 0] ].
+     SWaitClk CA AFTER; SRead SRA; SWaitFor (1%N, 2%positive); SWaitStable; SRead SC];
+    [SFork 0; SWaitClk CA AFTER; SWaitFor (0%N, 1%positive); SWaitChange [SC]; SRead SC; SJoin 0] ].
 Definition demo_log : list entry := res_log (simulate cfg_one procs_demo false 5 [] 5000).
 
 Definition count_entries (f : entry -> bool) : nat := length (filter f demo_log).
